@@ -45,6 +45,14 @@ def run(ctx):
             for nlp in (False, True):
                 extra.append(dict(entry="universal", limit=rnd.choice([1, 5, 50]), nlp=nlp, fuzzy=True, thr=thr, ponly=False, pboost=False,
                                   allplat=rnd.random() < 0.5, plats=[], nocross=False, boost=False, query="raw", raw=raw, corpus="mix"))
+    # typo queries with characters the NLP cleaner removes (? ! + , : / and letters outside ASCII): the fallback matches the
+    # query as typed
+    for raw in ("frobnicte?", "frob/nicte", "wdgt,nmbr", "frobnict\u00e9", "frbnct!", "wdgt+nmbr", "zq1:frbn", "frobnicte \u65e5\u672c"):
+        for thr in (0, -30):
+            for nlp in (False, True):
+                for entry in ("universal", "cached"):
+                    extra.append(dict(entry=entry, limit=rnd.choice([1, 5, 50]), nlp=nlp, fuzzy=True, thr=thr, ponly=False, pboost=False,
+                                      allplat=True, plats=[], nocross=False, boost=False, query="raw", raw=raw, corpus="mix"))
     # words the index does not know but whose NLP expansion hits it: the plain answer exists only through NLP terms
     for nlp in (True, False):
         for lim in (1, 5, 50):
